@@ -20,7 +20,10 @@ import vlib
 
 MODULE = "RenderCtxChildren"
 CORE = ["c1", "c0", "c2", "onceA", "onceF", "flush", "join", "raw"]
-ALL = CORE + ["fn", "cw", "nop", "script", "json"]
+ALL = CORE + ["fn", "fo", "cw", "nop", "script", "json"]
+# hand-written callees that render their children into the given writer (fn) / a writer of their own (fo: strings.Builder,
+# fh: templ.ToGoHTML), below and above generated layers; no Once/Flush here (ToGoHTML's buffer is not bounded)
+WRITERS = ["c1", "c0", "fn", "fo", "fh"]
 SMALL = ["c1", "c0", "onceA", "flush", "raw"]
 ACTIONS = ["OnceAgain", "OnceFirst", "Flush", "Join", "Raw", "Nop", "Script", "Json"]
 PER_PKG = 250
@@ -57,7 +60,7 @@ def cfg(base, kinds, nodes, depth, repaired=None, first=None):
 def call_src(k, pid):
     return {
         "c1": '@lib.C1("%s")', "c0": '@lib.C0("%s")', "c2": '@lib.C2("%s")', "cw": '@lib.Cw("%s")',
-        "fn": '@lib.Fn("%s")', "onceA": "@lib.HA.Once()", "onceF": "@lib.HF.Once()", "flush": "@templ.Flush()",
+        "fn": '@lib.Fn("%s")', "fo": '@lib.Fo("%s")', "fh": '@lib.Fh("%s")', "onceA": "@lib.HA.Once()", "onceF": "@lib.HF.Once()", "flush": "@templ.Flush()",
         "join": '@templ.Join(lib.Cj("%s.91"), lib.Cj("%s.92"))', "raw": "@templ.Raw(\"<x-raw id='%s'></x-raw>\")",
         "nop": "@templ.NopComponent", "script": '@lib.Scr("%s")', "json": '@templ.JSONScript("%s", 1)',
     }[k].replace("%s", pid)
@@ -142,10 +145,10 @@ def main():
     thorough = ck.tier == "thorough"
     # (kinds, MaxNodes, MaxDepth) of the tree families that are enumerated, compiled and rendered
     if thorough:
-        families = [("all-kinds", ALL, 3, 3), ("small-kinds-4", SMALL, 4, 4)]
+        families = [("all-kinds", ALL, 3, 3), ("small-kinds-4", SMALL, 4, 4), ("writers", WRITERS, 3, 3)]
         tlc_timeout = 1500
     else:
-        families = [("core-kinds", CORE, 3, 3), ("all-kinds-2", ALL, 2, 2)]
+        families = [("core-kinds", CORE, 3, 3), ("all-kinds-2", ALL, 2, 2), ("writers", WRITERS, 3, 3)]
         tlc_timeout = 600
 
     # --- MC (design check + negative configs) and emission with nothing repaired, side by side -------
@@ -157,6 +160,11 @@ def main():
                         workers=4, timeout=tlc_timeout, xmx="8g") if thorough else None
     f_neg = pool.submit(vlib.tlc, MODULE, "neg.cfg", files={"neg.cfg": cfg(MODULE + "_neg.cfg", CORE, 3, 3)},
                         workers=2, timeout=tlc_timeout)
+    wn = 4 if thorough else 3
+    f_mcw = pool.submit(vlib.tlc, MODULE, "mcw.cfg", files={"mcw.cfg": cfg(MODULE + "_mc.cfg", WRITERS, wn, wn)},
+                        workers=2, timeout=tlc_timeout)
+    f_negw = pool.submit(vlib.tlc, MODULE, "negw.cfg", files={"negw.cfg": cfg(MODULE + "_negflush.cfg", WRITERS, 3, 3)},
+                         workers=2, timeout=tlc_timeout)
     f_old = pool.submit(vlib.tlc, MODULE, "old.cfg", files={"old.cfg": cfg(MODULE + "_ascoded.cfg", CORE, 3, 3)},
                         workers=2, timeout=tlc_timeout)
     parts = {name: (4 if n >= 3 else 1) for (name, kinds, n, d) in families}
@@ -173,13 +181,19 @@ def main():
         if not mc4.ok:
             raise vlib.InfraError("repair design does not satisfy ImplEqualsIdeal on the 4-call trees (%s)" % mc4.violated)
         ck.add_tlc(mc4, "RenderCtxChildren_mc (all repaired) kinds=%d MaxNodes=4" % len(SMALL))
+    mcw = f_mcw.result()
+    if not mcw.ok:
+        raise vlib.InfraError("writer model does not satisfy ImplEqualsIdeal (%s): the model is wrong" % mcw.violated)
+    ck.add_tlc(mcw, "RenderCtxChildren_mc kinds=%s MaxNodes=%d (own-writer callees)" % (WRITERS, wn))
+    if f_negw.result().violated != "ImplEqualsIdeal":
+        raise vlib.InfraError("negative config (block closure does not flush the Buffer it created) was not rejected")
     neg = f_neg.result()
     if neg.violated != "ImplEqualsIdeal":
         raise vlib.InfraError("negative config (generated callees do not clear the slot) was not rejected")
     old = f_old.result()
     if old.violated != "ImplEqualsIdeal":
         raise vlib.InfraError("the as-coded model (nothing repaired) was not rejected: the spec does not see the slot leaks")
-    ck.set("negative_configs_rejected", ["GenClears=FALSE", "Repaired={} (components as coded at the pinned commit)"])
+    ck.set("negative_configs_rejected", ["GenClears=FALSE", "BlockFlushes=FALSE", "Repaired={} (components as coded at the pinned commit)"])
 
     # --- concretise: one templ template per tree ---------------------------------------------------
     def collect(results):
@@ -286,6 +300,8 @@ def main():
                    "with/without block, each compiled from its own templ source and rendered in a fresh context")
     ck.assume("Ideal semantics of DESIGN.md appendix: Join/Raw/Nop/script/JSON components ignore a block and their inner components get none; "
               "Once renders its block on first use only; a handle with a fixed component is called without a block")
+    ck.assume("callees that render their children into a writer of their own get blocks that fit the 4 KiB templ buffer (markers only); "
+              "truncation of larger blocks is not explored")
     ck.assume("user func components follow the documented GetChildren-then-ClearChildren protocol")
     ck.finish()
 
